@@ -496,6 +496,7 @@ class Exec:
         s.ginit = {}; s._parsed = {}; s.fresh = itertools.count()
         s.assumes = []                             # global assumptions (ranges of fresh variables)
         s.uninit = {}; s.readonly = set(); s._tabs = set()
+        s.prune = 0          # >0: candidate offsets of symbolic accesses (up to this many) are filtered by a solver feasibility query
 
     # ---- objects
     def new_obj(s, size, name=None):
@@ -635,8 +636,10 @@ class Exec:
                 if ic: off = V(off.e + ic * sz, off.lo + ic * sz, off.hi + ic * sz, _map_cs(off, lambda x: x + ic * sz))
             else:
                 cs = None
-                if idx.cs is not None and off.conc() is not None:
-                    b0 = off.conc(); cs = _map_cs(idx, lambda x: b0 + x * sz)
+                ics = idx.cs if idx.cs is not None else ((frozenset(range(idx.lo, idx.hi + 1)), False) if idx.hi - idx.lo <= 64 else None)
+                ocs = off.cs if off.cs is not None else ((frozenset(range(off.lo, off.hi + 1)), False) if off.hi - off.lo <= 0 else None)
+                if ics is not None and ocs is not None and len(ics[0]) * len(ocs[0]) <= 2048:
+                    cs = (frozenset(a + b * sz for a in ocs[0] for b in ics[0]), ics[1] or ocs[1])
                 off = V(off.e + idx.e * sz, off.lo + idx.lo * sz, off.hi + idx.hi * sz, cs)
         if off.lo == off.hi: off = C(off.lo)
         return Ptr(p.obj, off)
@@ -669,14 +672,26 @@ class Exec:
         return p.off.hi >= 0 and p.off.lo + n <= size
 
     def _uninit(s, obj, off, n, isptr):
+        """arbitrary (uninitialised / unconstrained pre-state) content: one variable per OCTET, wider reads compose them
+        little-endian, so that reads of different widths of the same location agree"""
+        if isptr: return NULL
         key = (obj, off, n)
         v = s.uninit.get(key)
         if v is None:
-            if isptr: v = NULL
+            bs = []
+            for k in range(n):
+                bk = (obj, off + k, 1)
+                x = s.uninit.get(bk)
+                if x is None:
+                    xv = z3.Int('uninit_%s_%d' % (obj, off + k))
+                    s.assumes.append(z3.And(xv >= 0, xv <= 255))
+                    x = s.uninit[bk] = V(xv, 0, 255)
+                bs.append(x)
+            if n == 1: v = bs[0]
             else:
-                x = z3.Int('uninit_%s_%d_%d' % (obj, off, n))
-                s.assumes.append(z3.And(x >= 0, x < (1 << (8 * n))))
-                v = V(x, 0, (1 << (8 * n)) - 1)
+                e = bs[0].e
+                for k in range(1, n): e = e + bs[k].e * (1 << (8 * k))
+                v = V(e, 0, (1 << (8 * n)) - 1)
             s.uninit[key] = v
         return v
 
@@ -732,7 +747,10 @@ class Exec:
         if stride > 1: lo += (-(lo - p.off.lo)) % stride
         full = range(lo, hi + 1, stride)
         cs = p.off.cs
-        if cs is None or len(full) <= len(cs[0]) or len(full) <= 8: return full, lo, stride
+        if cs is None or len(full) <= len(cs[0]):
+            if s.prune and 1 < len(full) <= s.prune:
+                return [o for o in full if not s._infeasible(st, p.off.e == o)], lo, stride
+            return full, lo, stride
         sel = sorted(c for c in cs[0] if lo <= c <= hi)
         if cs[1]:
             # the offset may also be "something else" (e.g. an uninitialised cell): one solver query decides
@@ -742,7 +760,19 @@ class Exec:
             sv.add(*[p.off.e != c for c in cs[0]])
             sv.add(p.off.e >= 0, p.off.e + n <= size)
             if sv.check() != z3.unsat: return full, lo, stride
+        if s.prune and 1 < len(sel) <= s.prune:
+            sel = [o for o in sel if not s._infeasible(st, p.off.e == o)]
         return sel, lo, stride
+
+    def _infeasible(s, st, cond):
+        sv = getattr(s, '_isolver', None)
+        if sv is None:
+            sv = s._isolver = z3.Solver(); sv.set('timeout', 20000); s._inass = 0
+        if s._inass < len(s.assumes):
+            sv.add(*s.assumes[s._inass:]); s._inass = len(s.assumes)
+        extra = [x for x in (st.guard, cond) if x is not True]
+        if any(x is False for x in extra): return True
+        return sv.check(*extra) == z3.unsat
 
     def _load1(s, st, p, n, isptr):
         size = s.objs[p.obj]; cells = s.cells(st, p.obj)
@@ -761,7 +791,11 @@ class Exec:
                 return V(f(idx), min(tab), max(tab))
         res = None
         for o in cand:
-            v = s._read_at(cells, p.obj, o, n, isptr)
+            try:
+                v = s._read_at(cells, p.obj, o, n, isptr)
+            except Unsupported:
+                if s._infeasible(st, p.off.e == o): continue
+                raise
             res = v if res is None else vite(p.off.e == o, v, res)
         return res
 
@@ -786,7 +820,12 @@ class Exec:
             if oc is None: cand, lo, stride = s.candidates(st, p, n)
             else: cand = [oc] if 0 <= oc <= size - n else []
             for o in cand:
-                old = s._read_at(cells, p.obj, o, n, isptr)
+                try:
+                    old = s._read_at(cells, p.obj, o, n, isptr)
+                except Unsupported:
+                    # a candidate that would tear a differently-typed cell: legitimate only if it is infeasible
+                    if oc is None and s._infeasible(st, gand(g, p.off.e == o)): continue
+                    raise
                 cond = (p.off.e == o) if oc is None else True
                 cond = gand(cond, g)
                 _clear_overlap(s, cells, p.obj, o, n)
@@ -1159,6 +1198,17 @@ class Exec:
         nc = n.conc()
         if nc is None: raise Unsupported('memcpy with symbolic length')
         i8 = Ty('int', bits=8)
+        if isinstance(src, Ptr) and src.obj is not None and src.off.conc() is not None and isinstance(d, Ptr) and d.obj is not None:
+            # cell-wise copy (keeps pointer-typed cells intact)
+            if not s.check_access(st, True, src, nc, what) or not s.check_access(st, True, d, nc, what): return
+            base = src.off.conc(); cells = s.cells(st, src.obj); pos = base
+            while pos < base + nc:
+                c = cells.get(pos)
+                if c is not None and pos + c[0] <= base + nc: w, v = c
+                else: w, v = 1, s._read_byte(cells, src.obj, pos)
+                s._store1(st, _padd(d, pos - base), w, v, True)
+                pos += w
+            return
         for k in range(nc):
             b = s.load(st, i8, _padd(src, k), what)
             s.store(st, i8, b, _padd(d, k), what)
@@ -1277,3 +1327,21 @@ def solve(ex, extra_assumes, guard, timeout_ms=60000):
     r = sv.check()
     if r == z3.sat: return 'sat', sv.model()
     return str(r), None
+
+
+def compile_link_ir(units):
+    """units: [(src, incs, defs)] -> one linked module text (llvm-link) after mem2reg"""
+    with tempfile.TemporaryDirectory(prefix='vf_ir_') as td:
+        lls = []
+        for k, (src, incs, defs) in enumerate(units):
+            ll = os.path.join(td, 'u%d.ll' % k)
+            cmd = ['clang-14', '-O0', '-Xclang', '-disable-O0-optnone', '-S', '-emit-llvm', '-w'] + ['-I' + i for i in incs] + ['-D' + d for d in defs] + ['-o', ll, src]
+            p = subprocess.run(cmd, capture_output=True, text=True)
+            if p.returncode: raise HarnessError('clang failed on %s:\n%s' % (src, p.stderr[-2000:]))
+            lls.append(ll)
+        out = os.path.join(td, 'linked.ll'); m2 = os.path.join(td, 'm2r.ll')
+        p = subprocess.run(['llvm-link-14', '-S'] + lls + ['-o', out], capture_output=True, text=True)
+        if p.returncode: raise HarnessError('llvm-link failed: %s' % p.stderr[-1500:])
+        p = subprocess.run(['opt-14', '-mem2reg', '-S', out, '-o', m2], capture_output=True, text=True)
+        if p.returncode: raise HarnessError('opt failed: %s' % p.stderr[-1000:])
+        return open(m2).read()
